@@ -123,7 +123,8 @@ func plainHeapKey(t types.Type) string {
 
 func mapHeapKey(m *types.Map) string {
 	os := mapObjSort(m)
-	key := "M$" + os.Name
+	// one heap per Go map type (distinct map types cannot alias)
+	key := "M$" + typeKey(m)
 	if _, ok := heapSorts[key]; !ok {
 		heapSorts[key] = arraySort(sortInt, os)
 	}
